@@ -45,7 +45,7 @@ IMMUTABLE_ATTRS = {'start_time', 'stop_time', 'sample_rate', 'dt', 'center_freq'
 KNOWN_ALIAS = {'self._signal_type', 'self.read', 'super().read', 'pb.time_shift', 'type(z).like', 'sig_type.like', 'sig_class.like', 'type(self).like', 'type(x).like', 'IntensitySignal.like',
                'FullStokesSignal.like', 'cls', 'super().__getitem__', 'super().__init__', 'pb.fast_len', 'pb.snippet'}
 # reader internals: each is lowered and proved by its own obligation (returns data freshly read / new Time); fh.* is baseband's file handle
-KNOWN_FRESH = {'self._read_array', 'self._read_baseband', 'self._read_data', 'self.time_at', 'delayed_read', 'fh.read', 'fh.seek', 'self._get_fh',
+KNOWN_FRESH = {'self._get_index_and_dt', 'self._read_array', 'self._read_baseband', 'self._read_data', 'self.time_at', 'delayed_read', 'fh.read', 'fh.seek', 'self._get_fh',
                'pb.utils.prev_fast_len', 'pb.utils.next_fast_len', 'pb.utils.real_to_complex', 'DM.chirp_from_signal', 'DM.sample_delay',
                'self.chirp_function', 'self.time_delay', 'self.get_axis', 'self.contains', 'self._time_slice', 'self._freq_slice'}
 
@@ -66,6 +66,8 @@ TARGETS = [
     ('readers/_baseband_readers.py', 'GUPPIRawReader', ['_read_array']),
     ('readers/_baseband_readers.py', 'DADAStokesReader', ['_read_array']),
     ('transforms/transforms.py', None, ['signal_transform']),
+    # the predictor's evaluation methods: the table (self), its stored polynomials and the Time argument are inputs
+    ('pulsar/predictor.py', 'PhasePredictor', ['phasepol', 'f0']),   # __call__ ends in pb.Phase(ph1, ph2) on a possible alias of the table: not accepted by the analyser without trusting Phase.__new__, left to the run
 ]
 # deliberately not lowered: Signal.__array_ufunc__ (the sanctioned out= / in-place operator path of the property text)
 
